@@ -131,13 +131,14 @@ fn expected_for(region: &[u8], kind: u32) -> Option<usize> {
 
 fn run(ctx: &mut Ctx) {
     let arena = Arena::new(3);
+    let quick = ctx.quick() || ctx.dev_profile();
     // ---------------- (a) fields: single-byte perturbations
-    ctx.bound("fields", "every kind 0..=21: spec-conformant sample images (1-3 variants per kind) and every single-byte perturbation of every body byte with {00,01,02,04,08,10,20,40,80,FF}, enumerated fields / counts / strides kept legal; region [filler][tag][end]; every public accessor compared with the slice-based reference decoder");
+    ctx.bound("fields", "every kind 0..=21: spec-conformant sample images (1-3 variants per kind) and every single-byte perturbation of every body byte with {00,01,02,04,08,10,20,40,80,FF} (quick tier and dev profile) / with all 256 values (thorough, release), enumerated fields / counts / strides kept legal; region [filler][tag][end]; every public accessor compared with the slice-based reference decoder");
     for kind in 0..=21u32 {
         for (vi, img) in variants(kind).into_iter().enumerate() {
             let mut cases: Vec<(usize, u8)> = vec![(0, 0)]; // (0,0) = unperturbed
             for p in 8..img.len() {
-                for &v in &PERT {
+                for v in (0..=255u8).filter(|v| !quick || PERT.contains(v)) {
                     if v != img[p] && legal(kind, &img, p, v) {
                         cases.push((p, v));
                     }
